@@ -41,14 +41,19 @@ def run(tier):
                      {'name': 'SmtpServer: complete command x verdict graph, no extensions configured', 'module': 'SmtpServer', 'cfg': 'SmtpServer_plain.cfg', 'coverage': True},
                      {'name': 'deviation KF_BareArg421 (D9 as found): TLC must find the malformed command that ends the session',
                       'module': 'SmtpServer', 'cfg': 'SmtpServer_kf9.cfg', 'expect_violation': ['C07_ErrorsDoNotClose', 'C08_AuthMalformed', 'C07_NoCallbackOnError']}], 'c07', 'Trace_SmtpServer', 'Trace_SmtpServer.cfg', [canary_order, canary_reset, canary_tworeplies],
+        extras=[{'driver': 'c07', 'module': 'Trace_SmtpServerD', 'cfg': 'Trace_SmtpServerD_plain.cfg', 'args': ('steps-plain',)},
+                {'driver': 'c07', 'module': 'Trace_SmtpServerD', 'cfg': 'Trace_SmtpServerD_auth.cfg', 'args': ('steps-auth',)}],
         level='model_checking',
         rule='command sequences over {EHLO, HELO, MAIL, RCPT, DATA+content, RSET, NOOP, QUIT, unknown/unparseable, malformed '
              'variants} exhaustively to the depth bound after five protocol prefixes; a transaction skeleton x every '
              'validator verdict assignment {accept, 450, 550, 421} for MAIL/RCPT/DATA/end-of-data and banner/EHLO/HELO; random '
-             'long sessions with random verdicts; through the real Server with the real edge SmtpSession; '
+             'long sessions with random verdicts; the same with AUTH configured (AUTH PLAIN, bad base64, bare, unknown mechanism, verdicts '
+             '450/535/421); through the real Server with the real edge SmtpSession; every session is validated twice: by the '
+             'observer (verdicts) and step by step as a behaviour of the design model SmtpServer.tla (DRIFT_NotAModelStep); '
              'non-trivial = at least one rejected, out-of-order or malformed command',
         trigger=lambda tr: any(e['t'] == 'reply' and e['code'] >= 400 for e in tr['ev']),
-        assumptions=['commands are sent one at a time (segmentation independence is C09); STARTTLS/AUTH are exercised by C08'],
+        assumptions=['commands are sent one at a time (segmentation independence is C09); a completed STARTTLS and the AUTH matrix over TLS are exercised by C08',
+                     'a command line that is not valid UTF-8 is answered 501 and the session is then dropped: the design model leaves that out, validation against it stops there'],
         trusted=['TLC 1.8', 'CommunityModules Json/IOUtils', 'harness/sdrv.py (in-memory socket, reply parser)', 'harness/vt.py'],
         wd=wd, clause_filter=lambda c: c.startswith('C07_'))
 
